@@ -87,6 +87,7 @@ class C10(HistoryProperty):
 
     def gen_case(self, rng, tier):
         cfg = gen.swarm_cfg(rng, on=("dsclass", "namespace", "fapp"))
+        cfg["odd_constants"] = rng.random() < 0.4
         cfg["env_refs"] = rng.random() < 0.4  # Template texts referring to the process environment
         cfg["posonly_params"] = rng.random() < 0.4  # dataset functions with positional-only parameters
         cfg["preset_plain_section"] = rng.random() < 0.4  # pre-set / default options holding a plain value where callers have a section
